@@ -992,7 +992,7 @@ func c05Obligs(tier string) []Oblig {
 			}
 		}
 	}
-	for l1 := 0; l1 < 12; l1++ {
+	for l1 := 0; l1 < 15; l1++ {
 		for _, l2 := range []int{0, 2, 3, 5, 6, 10} {
 			for _, l3 := range []int{0, 1, 4} {
 				for shape := 0; shape < 5; shape++ {
